@@ -64,7 +64,13 @@ def run(pid, tier, seed, replay):
         p = vlib.run([rdrv, "iso", "60" if tier == "quick" else "300", str(seed + 1), o2], env=dict(os.environ, GORACE="halt_on_error=0"), timeout=7000, check=False)
         if "WARNING: DATA RACE" in p.stdout:
             rep.reject("data race reported while one compiled program is executed from many goroutines", [], {"property": pid, "race": p.stdout[-3000:]})
-        runs.append(("iso-race", o2))
+        if p.returncode != 0 and ("fatal error:" in p.stdout or "panic:" in p.stdout):
+            rep.reject("the race-build driver process died inside the interpreter (iso)", [],
+                       {"property": pid, "labels": ["host-process-crashed"], "mode": "iso-race", "output": p.stdout[-3000:]})
+        elif p.returncode != 0 and "WARNING: DATA RACE" not in p.stdout:
+            raise vlib.CannotRun("interpdrv (race build) failed:\n%s" % p.stdout[-3000:])
+        else:
+            runs.append(("iso-race", o2))
     judged, stats_all, samples = 0, {}, []
     for name, path in runs:
         jd = vlib.fresh_dir(pid, "judge_" + name)
